@@ -20,7 +20,7 @@ impl<'a> R<'a> {
     }
 
     pub fn gen_elem(&mut self, scope: &[(String, String)], depth: usize, path: &[usize]) -> AElem {
-        let ns = if self.rng.chance(2, 5) { String::new() } else { self.pick_uri() };
+        let mut ns = if self.rng.chance(2, 5) { String::new() } else { self.pick_uri() };
         let local = self.pick(ELEM_LOCALS).to_string();
         let mut decls: Vec<(String, String)> = vec![];
         for _ in 0..*self.rng.pick(&[0usize, 0, 0, 1, 1, 2]) {
@@ -31,10 +31,48 @@ impl<'a> R<'a> {
             let uri = if p.is_empty() && self.rng.chance(1, 3) { String::new() } else { self.pick_uri() };
             decls.push((p, uri));
         }
+        if self.cfg.twin_prefixes {
+            // two spellings of one namespace: two prefixes, or the default namespace and a prefix
+            if self.rng.chance(1, 2) {
+                let u = self.pick_uri();
+                let p1 = self.pick(PREFIXES).to_string();
+                let p2 = self.pick(&["p", "q", "r", "s", "t"]).to_string();
+                if p1 != p2 && !decls.iter().any(|d| d.0 == p1 || d.0 == p2) {
+                    decls.push((p1, u.clone()));
+                    decls.push((p2, u.clone()));
+                    self.feat("twin-prefixes-declared");
+                    if self.rng.chance(1, 2) {
+                        ns = u;
+                    }
+                }
+            }
+            // elements below use a namespace that has several spellings in scope
+            let mut scope1: Vec<(String, String)> = scope.to_vec();
+            scope1.extend(decls.iter().cloned());
+            let twins: Vec<String> = URIS.iter().chain(URIS_REF.iter()).map(|u| u.to_string()).filter(|u| prefixes_for(&scope1, u, true).len() >= 2).collect();
+            if !twins.is_empty() && self.rng.chance(1, 2) {
+                ns = twins[self.rng.below(twins.len())].clone();
+            }
+        }
+        if self.cfg.xml_alias {
+            if self.rng.chance(1, 2) {
+                let p = self.pick(&["xa", "p", "q", "xmlx"]).to_string();
+                if !decls.iter().any(|d| d.0 == p) {
+                    decls.push((p, XML_NS.to_string()));
+                    self.feat("xml-ns-alias-declared");
+                }
+            }
+            if self.rng.chance(1, 8) {
+                // legal: the prefix xml may be declared, with its own namespace name
+                decls.push(("xml".to_string(), XML_NS.to_string()));
+                self.feat("xmlns-xml-declared");
+            }
+        }
         let mut attrs: Vec<(String, String, String)> = vec![];
         let mut has_xmlid = false;
         for _ in 0..*self.rng.pick(&[0usize, 0, 1, 1, 2, 3]) {
-            let (ans, aloc) = match self.rng.below(12) {
+            let k = if self.cfg.xml_alias && self.rng.chance(1, 3) { 10 } else { self.rng.below(12) };
+            let (ans, aloc) = match k {
                 0..=5 => (String::new(), self.pick(ATTR_LOCALS).to_string()),
                 6..=8 => (self.pick_uri(), self.pick(ATTR_LOCALS).to_string()),
                 9 => (XML_NS.to_string(), self.pick(&["lang", "space"]).to_string()),
@@ -168,6 +206,13 @@ impl<'a> R<'a> {
                 self.out.push('=');
                 self.ws0();
                 let is_id = ans == XML_NS && aloc == "id";
+                if is_id && !an.starts_with("xml:") {
+                    self.feat("xml-id-via-alias");
+                    self.alias_ids.push(value.clone());
+                    if self.cfg.xmlid_spaces {
+                        self.feat("xml-id-via-alias-many-spaces");
+                    }
+                }
                 let extra = is_id && (self.cfg.xmlid_spaces || self.rng.chance(1, 3));
                 if extra && self.cfg.xmlid_spaces {
                     self.feat("xml-id-many-spaces");
@@ -229,6 +274,19 @@ impl<'a> R<'a> {
             let e = self.out.len();
             self.span(path, "EE", 0, s, e);
             self.close_tags.push((s, e));
+            if !ns.is_empty() {
+                // the same expanded name through another prefix / the default namespace
+                let others: Vec<String> = prefixes_for(&scope2, &ns, true)
+                    .into_iter()
+                    .map(|p| if p.is_empty() { local.clone() } else { format!("{}:{}", p, local) })
+                    .filter(|o| *o != q)
+                    .collect();
+                if !others.is_empty() {
+                    self.feat("end-tag-has-other-spelling");
+                    let o = others[self.rng.below(others.len())].clone();
+                    self.close_alts.push((s, e, format!("</{}>", o)));
+                }
+            }
         }
         AElem { ns, local, decls, attrs, kids }
     }
@@ -348,6 +406,8 @@ impl<'a> R<'a> {
             spans: self.spans,
             tag_points: self.tag_points,
             close_tags: self.close_tags,
+            close_alts: self.close_alts,
+            alias_ids: self.alias_ids,
             text_points: self.text_points,
             attr_points: self.attr_points,
             decl_points: self.decl_points,
